@@ -28,6 +28,7 @@ PROPS = {
         ],
         "units": [
             {"name": "c01.valid", "pkg": BPV7, "test": "TestVerifC01Valid", "shards_t": 16},
+            {"name": "c01.unregistered", "pkg": BPV7, "test": "TestVerifC01Unregistered", "shards_t": 8},
             {"name": "c01.mutants", "pkg": BPV7, "test": "TestVerifC01Mutants", "shards_t": 16},
             {"name": "c01.inner-eids", "pkg": BPV7, "test": "TestVerifC01InnerEIDs"},
             {"name": "c01.fuzz", "pkg": BPV7, "kind": "fuzz", "fuzz": "FuzzVerifC01", "seconds": 240, "tiers": ["thorough"]},
@@ -61,6 +62,7 @@ PROPS = {
             {"name": "c02.builder", "pkg": BPV7, "test": "TestVerifC02Builder", "shards_t": 8},
             {"name": "c02.buildfrommap", "pkg": BPV7, "test": "TestVerifC02BuildFromMap", "shards_t": 8},
             {"name": "c02.fragments", "pkg": BPV7, "test": "TestVerifC02Fragments", "shards_t": 8},
+            {"name": "c02.node-generated", "pkg": ROUTING, "test": "TestVerifC02NodeGenerated", "shards_t": 16, "shards_q": 6, "crash_is_violation": True},
         ],
     },
     "C09": {
